@@ -69,8 +69,10 @@ structure GDesc where
 def GDesc.parse : V → Option GDesc
   | .l [.a r, x, arcs] =>
     if r == "am" then do
-      let vs ← V.listOf? V.nat? x
+      let vs0 ← V.listOf? V.nat? x
       let as ← V.listOf? (V.pair? V.nat? V.nat?) arcs
+      -- canonical vertex set: ascending, duplicate-free, endpoints admitted (as `add_arc` does)
+      let vs := (vs0 ++ as.flatMap (fun a => [a.1, a.2])).foldl (fun acc v => insertAsc v acc) []
       pure ⟨r, vs, vs.length, as, as.map (fun a => (a.1, a.2, 1))⟩
     else if r == "al" || r == "mx" || r == "el" then do
       let n ← V.nat? x
